@@ -52,7 +52,7 @@ ASSUMPTIONS = [
     "timing behaviour of the check is out of scope",
 ]
 NONTRIVIAL = ["fcell", "rcell"]
-DEADLINE = {"quick": 90, "thorough": 900}
+DEADLINE = {"quick": 300, "thorough": 1500}
 
 MACS = {"md5": hashlib.md5, "sha1": hashlib.sha1, "sha256": hashlib.sha256,
         "sha384": hashlib.sha384}
@@ -823,11 +823,18 @@ def rec_case(ctx, P):
 
 # --------------------------------------------------------------------------
 def make_cases(ctx):
+    """record-level cases first: they are the cheaper part and must not be
+    the ones a soft deadline cuts off"""
+    for c in rec_cases(ctx):
+        yield c
     for macname in sorted(MACS):
         for ver in VERS:
             for res in range(RESIDUES):
                 yield ("f-%s-%s-%02d" % (macname, VNAME[ver], res),
                        dict(kind="f", mac=macname, ver=ver, res=res))
+
+
+def rec_cases(ctx):
     rng = ctx.case_rng("plan")
     for si, su in enumerate(SUITES):
         block = su[4]
@@ -916,9 +923,9 @@ def finalize(m, tier):
               "rneg:corrupt_pad"):
         if c.get(k, 0) == 0:
             out.append("record level counter is zero: " + k)
-    if tier == "thorough" and m["truncated"]:
-        out.append("thorough tier truncated by the soft deadline: the "
-                   "enumeration is not exhaustive")
+    if m["truncated"]:
+        out.append("soft deadline hit before the case list was finished: "
+                   "the %s enumeration is incomplete" % tier)
     if tier == "thorough" and not m["truncated"]:
         want = len(MACS) * len(VERS) * (MAXLEN * 256 + 1)
         have = len(m["cells"].get("fcell", ()))
